@@ -495,6 +495,14 @@ func runC09(c *Ctx) {
 				// a remote password equal to a remote server name
 				cs.RemPwHex[0] = hex.EncodeToString([]byte(cs.Remotes[0]))
 			}
+			switch {
+			case i%7 == 5 && nrem > 0 && len(p.pw) > 0:
+				// a remote server that shares the account password
+				cs.RemPwHex[nrem-1] = cs.PwHex
+			case i%7 == 6 && nrem > 1:
+				// two remote servers sharing one password
+				cs.RemPwHex[nrem-1] = cs.RemPwHex[0]
+			}
 			if len(p.pw)+nl > capacity {
 				cs.Variant = "too-long"
 			}
